@@ -132,7 +132,7 @@ def standard_representation(
 ) -> torch.Tensor:
     r"""irrep of Sn of dimension n - 1"""
     A = complete_basis(torch.ones(1, len(p), dtype=dtype, device=device), eps=0.1 / len(p))
-    return A @ natural_representation(p) @ A.T
+    return A @ natural_representation(p, dtype=dtype, device=device) @ A.T
 
 
 def natural_representation(
